@@ -913,7 +913,7 @@ fn gen_exhaustive_reg(cases: &mut Vec<Value>, ctx: bool, max_len: usize) {
 
 fn gen_cases(rng: &mut Rng, tier: Tier) -> Vec<Value> {
     let thorough = tier == Tier::Thorough;
-    let scale = if thorough { 20 } else { 1 };
+    let scale = if thorough { 10 } else { 1 };
     let mut cases = vec![];
     for _ in 0..(400 * scale) {
         let len = rng.usize(5, 50);
@@ -931,15 +931,14 @@ fn gen_cases(rng: &mut Rng, tier: Tier) -> Vec<Value> {
         let len = rng.usize(3, 25);
         cases.push(gen_sequence(rng, "oor", len));
     }
-    // exhaustive part
-    let (tl, rl) = if thorough { (5, 5) } else { (3, 3) };
-    for closed in [true, false] {
-        gen_exhaustive_tour(&mut cases, closed, if closed { "new_rc" } else { "new_tour" }, tl);
-    }
+    // exhaustive part: every word over the alphabet up to the given length
+    let (tl, rl) = if thorough { (4, 4) } else { (3, 3) };
+    gen_exhaustive_tour(&mut cases, true, "new_rc", if thorough { 5 } else { tl });
+    gen_exhaustive_tour(&mut cases, false, "new_tour", tl);
     gen_exhaustive_reg(&mut cases, false, rl);
     gen_exhaustive_reg(&mut cases, true, rl);
     if thorough {
-        for _ in 0..2000 {
+        for _ in 0..1000 {
             let len = rng.usize(100, 300);
             cases.push(gen_sequence(rng, "mixed", len));
         }
